@@ -56,12 +56,14 @@ def inputs(ctx):
     for _ in range(150 if ctx.quick else 2000):
         add(gen.random_program(rng, bw, n_ops=rng.choice([10, 30, 60]), hostile=rng.choice([0, 0.05, 0.15])),
             gen.random_config(rng), "random")
+    for code in gen.cyclic_evidence_programs(rng, 80 if ctx.quick else 1500):
+        add(code, (30000000, 10, 50, 250, 394, 0), "cyclic-evidence")
     return progs
 
 
 def check(ctx):
     vlib.translate(ctx)
-    vlib.prove(ctx, "props/C03.v", ["VmCases.vo"])
+    vlib.prove(ctx, "props/C03.v", ["VmCases.vo", "UnifyCases.vo"])
     hb = vlib.harness_bin(ctx)
     progs = inputs(ctx)
     keys = list(progs.keys())
@@ -93,11 +95,24 @@ def check(ctx):
         ok2, aout, diag2 = vlib.run_harness_sharded(hb, ["analyze"], alines, timeout=1200)
         ctx.oblige("harness:analyze", "search", ok2, diag2)
         aclass = collections.Counter()
+        # analyses that did not halt inside unification: the judgement set that reached unify is dumped by the real pipeline
+        # and classified INSIDE Coq (UnifyCases.check_case_with: 50 = inside the known class K2 of C14, 40 = outside)
+        hung = [(c, cfg) for (c, cfg), l in zip(keys, aout) if l.startswith("XA 3") and ('"tc"' in l or '"unify"' in l)]
+        k2 = set()
+        if hung:
+            import p_c14
+            for (c, cfg) in hung:
+                r = p_c14.classify_programs(ctx, hb, [c.hex()], limits=list(cfg))
+                if r and r[0]["outcome"] == "UBudget" and r[0]["code"] == 50:
+                    k2.add((c, cfg))
+        ctx.coverage["unification_did_not_halt"] = {"total": len(hung), "inside_known_class_K2": len(k2)}
         for (c, cfg), l in zip(keys, aout):
             f = l.split(" ")
             cls = f[1] if len(f) > 1 and f[0] == "XA" else l[:20]
             aclass[cls] += 1
-            if cls == "3" or l == "CHILD-DIED":
+            if (c, cfg) in k2:
+                ctx.violate("C03:K2", "unification does not halt on %s" % c.hex()[:120], {"code": c.hex(), "config": list(cfg), "stage": "unify"})
+            elif cls == "3" or l == "CHILD-DIED":
                 stage = l.split('"')[1] if '"' in l else "?"
                 ctx.violate("C03:no-halt:%s:%s" % (stage, c.hex()[:48]),
                             "analysis did not halt within the poll budget (stage %s) on %s %s" % (stage, c.hex()[:120], cfg),
